@@ -222,7 +222,8 @@ pub fn run_case(c: &Case, dir: &std::path::Path, n: u64) -> Result<(), Fail> {
         }
         1 => {
             use std::os::linux::net::SocketAddrExt;
-            let name = format!("vl-c20-{}-{}", std::process::id(), n);
+            // an abstract name is not a path: it may well contain slashes and dots
+            let name = if n % 2 == 1 { format!("vl-c20-{}/{}/sub.dir/s", std::process::id(), n) } else { format!("vl-c20-{}-{}", std::process::id(), n) };
             let sa = std::os::unix::net::SocketAddr::from_abstract_name(&name).map_err(|e| Fail::new("HARNESS/bind", e.to_string()))?;
             let l = UnixListener::bind_addr(&sa).map_err(|e| Fail::new("HARNESS/bind", e.to_string()))?;
             (Listener::Unix(l), format!("unix:@{}", name))
@@ -455,7 +456,7 @@ pub fn run(args: &Args) -> ! {
             Final::Err(..) => "final:custom-error",
             Final::Close => "final:connection-closed",
         });
-        ctx.class(["address:unix-path-with-slashes", "address:unix-abstract", "address:tcp"][(c.addr_form % 3) as usize]);
+        ctx.class(["address:unix-path-with-slashes", "address:unix-abstract(every other name with slashes)", "address:tcp"][(c.addr_form % 3) as usize]);
         ctx.sample(|| case_json(c));
         run_case(c, &scratch.path, counter.get())
     });
